@@ -44,7 +44,7 @@ Definition c03_world : world :=
   {| w_resp := [(1, WModule 1 {| wm_hash_raw := 0; wm_hash_text := 0; wm_media := MTypeScript; wm_parse_ok := true; wm_kind := MkJs;
                                  wm_deps := [c03_dep 10 2; c03_dep 11 3]; wm_tdep := None |});
                 (2, WError); (3, WRedirect 4); (4, WRedirect 3)];
-     w_resp_reload := []; w_http := []; w_lock := None; w_class := []; w_file := []; w_max_redirects := 3; w_npm := None |}.
+     w_resp_reload := []; w_http := []; w_lock := None; w_class := []; w_file := []; w_max_redirects := 3; w_wasm_ext := []; w_wasm_nodts := []; w_npm := None |}.
 Definition c03_opts : bopts :=
   {| bo_kind := KAll; bo_is_dynamic := false; bo_skip_dynamic := false; bo_unstable_bytes := false;
      bo_unstable_text := false; bo_unstable_css := false |}.
